@@ -80,7 +80,10 @@ def to_qml(lay):
             if lay[key] is not None:
                 lines.append("    %s: %d" % (key, lay[key]))
     for a in lay["kids"]:
-        body = "; ".join("QLayout.%s: %d" % (q, a[k]) for k, q in FIELDS if k in a)
+        # "mixed": the attached settings of one child written through TWO spellings of the attaching type (the concrete layout class for the row-wise ones, QLayout for
+        # the others) -- refused today; if ever accepted, both spellings mean the one attached object and every setting counts
+        pre = lambda k: cls if (lay.get("mixed") and k in ("row", "rowspan", "rmh", "rst")) else "QLayout"
+        body = "; ".join("%s.%s: %d" % (pre(k), q, a[k]) for k, q in FIELDS if k in a)
         lines.append("    %s { %s }" % (a.get("_cls", "QLabel"), body))
     lines += ["  }", "}"]
     return "\n".join(lines)
@@ -178,6 +181,12 @@ def run(ctx):
         lays = [ctx.replay["case"]]
     else:
         lays = corpus + enum_small(4 if ctx.tier == "thorough" else 3) + [gen_layout(rng, ctx) for _ in range(4000 if ctx.tier == "thorough" else 600)]
+        for _ in range(300 if ctx.tier == "thorough" else 60):
+            ml = gen_layout(rng, ctx)
+            if any(any(k in a for k in ("row", "rowspan", "rmh", "rst")) and any(k in a for k in ("col", "colspan", "cmw", "cst")) for a in ml["kids"]):
+                ml["mixed"] = True
+                lays.append(ml)
+                ctx.dist("layout-mixed-spelling")
     docs = [to_qml(l) for l in lays]
     impl = qml.run_docs(vh, docs)
     terms, sterms, idx = [], [], []
@@ -189,6 +198,9 @@ def run(ctx):
                           "theorem_or_correspondence": "C12_grid (no panic)"})
             continue
         obs = observe(r)
+        if l.get("mixed") and (obs is None or any(d["kind"] == "error" and "attached" in d["msg"] for d in r.get("diags", []))):
+            ctx.dist("mixed-spelling-refused")
+            continue
         if obs is None:
             ctx.violation("no .ui produced for a layout document", {"case": l, "qml": docs[i], "impl_output": r})
             continue
